@@ -22,6 +22,8 @@ long g_cnt_live, g_cnt_double;
 
 namespace
 {
+using nitro::lang::quaint_ptr;
+bool g_in_reset;   // set by the harness around an explicit reset(): only then does a B reach back to its owner
 struct A
 {
     int id;
@@ -38,11 +40,15 @@ struct A
             ++g_dtor_a[id];
     }
 };
+// A B knows the pointer that owns it and, while that pointer is being reset(), asks it to let go of it (an object that unregisters
+// itself).  reset() must have emptied the owner BEFORE the destructor runs (std::unique_ptr::reset does), so the nested call finds
+// nothing to destroy; an owner that still holds the dying object would destroy it twice.
 struct B
 {
     int id;
     long y;
-    B() : id(g_nobj), y(7)
+    quaint_ptr* owner;
+    B() : id(g_nobj), y(7), owner(nullptr)
     {
         if (g_nobj < MAXOBJ)
             g_obj_type[g_nobj] = 2;
@@ -52,9 +58,10 @@ struct B
     {
         if (id < MAXOBJ)
             ++g_dtor_b[id];
+        if (g_in_reset && owner != nullptr && owner->get() == static_cast<void*>(this))
+            owner->reset();
     }
 };
-using nitro::lang::quaint_ptr;
 } // namespace
 
 int q_history(unsigned n, const int* ops, const int* args, int* out_state, int* out_val)
@@ -70,14 +77,17 @@ int q_history(unsigned n, const int* ops, const int* args, int* out_state, int* 
             case 0: // create an A in slot s (overwrites what the slot held)
                 p[s] = nitro::lang::make_quaint<A>(10 + static_cast<int>(k));
                 break;
-            case 1: // create a B in slot s
+            case 1: // create a B in slot s; it remembers its owner
                 p[s] = nitro::lang::make_quaint<B>();
+                static_cast<B*>(p[s].get())->owner = &p[s];
                 break;
             case 2: // move-assign slot s from the other slot
                 p[s] = std::move(p[1 - s]);
                 break;
-            case 3: // reset slot s
+            case 3: // reset slot s (the pointee may reach back to the slot while it dies)
+                g_in_reset = true;
                 p[s].reset();
+                g_in_reset = false;
                 break;
             case 4: // move-construct a temporary from slot s, then the temporary dies
             {
